@@ -22,6 +22,8 @@ type hdCase struct {
 	Desc   string    `json:"desc"`
 	Over   int       `json:"over"`
 	Cut    int       `json:"cut"`
+	Em     string    `json:"em"`  // emission: on | off | off1 (disabled by the consumer after the first field)
+	Tab    []hpEnt   `json:"tab"` // dynamic table RFC 7541 leaves after the block, newest first
 }
 
 func octets(v []int) []byte {
@@ -36,14 +38,17 @@ func octets(v []int) []byte {
 var hdUnabstract = strings.NewReplacer("X", "\x02", "Y", "\x0a")
 
 type hdOutcome struct {
+	tab    []hpEnt // dynamic table read back through indexed references after an accepted block
 	fields []hpField
 	err    string
 	where  string
 	pan    string
 }
 
-// decodeSplit feeds pre (a complete block) and then b in two Writes split at k, then Close.
-func decodeSplit(pre, b []byte, k int) (o hdOutcome) {
+// decodeSplit feeds pre (a complete block) and then b in two Writes split at k, then Close, under
+// the emission mode em; after an accepted block emission is switched on again and the dynamic
+// table is read back with indexed references 62, 63, ... (each a block of its own).
+func decodeSplit(pre, b []byte, k int, em string) (o hdOutcome) {
 	o.pan = vh.Guard(func() {
 		var got []hpField
 		d := hpack.NewDecoder(4096, func(f hpack.HeaderField) error {
@@ -59,6 +64,16 @@ func decodeSplit(pre, b []byte, k int) (o hdOutcome) {
 			return
 		}
 		got = nil
+		switch em {
+		case "off":
+			d.SetEmitEnabled(false)
+		case "off1":
+			d.SetEmitFunc(func(f hpack.HeaderField) error {
+				got = append(got, hpField{f.Name, f.Value, f.Sensitive})
+				d.SetEmitEnabled(false)
+				return nil
+			})
+		}
 		if _, err := d.Write(b[:k]); err != nil {
 			o.err, o.where = err.Error(), "write1"
 		} else if _, err := d.Write(b[k:]); err != nil {
@@ -67,6 +82,26 @@ func decodeSplit(pre, b []byte, k int) (o hdOutcome) {
 			o.err, o.where = err.Error(), "close"
 		}
 		o.fields = got
+		if o.err != "" {
+			return
+		}
+		d.SetEmitEnabled(true)
+		d.SetEmitFunc(func(f hpack.HeaderField) error {
+			got = append(got, hpField{f.Name, f.Value, f.Sensitive})
+			return nil
+		})
+		o.tab = []hpEnt{}
+		for idx := 62; idx < 62+16; idx++ {
+			got = nil
+			if _, err := d.Write([]byte{0x80 | byte(idx)}); err != nil {
+				break
+			}
+			d.Close()
+			if len(got) != 1 {
+				break
+			}
+			o.tab = append(o.tab, hpEnt{got[0].N, got[0].V})
+		}
 	})
 	return
 }
@@ -117,9 +152,16 @@ func hpackDecRun() {
 		if c.Cut > 0 || c.Over > 0 {
 			shape += "/cut"
 		}
+		if c.Em != "" && c.Em != "on" {
+			shape += "/emit-" + c.Em
+		}
+		wantTab := make([]hpEnt, len(c.Tab))
+		for i, e := range c.Tab {
+			wantTab[i] = hpEnt{hdUnabstract.Replace(e.N), hdUnabstract.Replace(e.V)}
+		}
 		var first *hdOutcome
 		for k := 0; k <= len(b) && res.OK; k++ {
-			o := decodeSplit(pre, b, k)
+			o := decodeSplit(pre, b, k, c.Em)
 			if k == 0 {
 				oc := o
 				first = &oc
@@ -141,6 +183,9 @@ func hpackDecRun() {
 			case o.err == "" && !eqFields(o.fields, want):
 				res.OK, res.Sig = false, "fields/"+shape
 				res.Detail = fmt.Sprintf("%s: decoded %+v, RFC 7541 gives %+v", at, o.fields, want)
+			case o.err == "" && !eqTab(o.tab, wantTab):
+				res.OK, res.Sig = false, "table/"+shape
+				res.Detail = fmt.Sprintf("%s: indexed references after the block give dynamic table %+v, RFC 7541 gives %+v", at, o.tab, wantTab)
 			}
 			// all split points must agree with the unsplit delivery (k = 0 is a single Write)
 			if res.OK && first != nil && ((o.err == "") != (first.err == "") || (o.err == "" && !eqFields(o.fields, first.fields))) {
@@ -155,7 +200,7 @@ func hpackDecRun() {
 				res.Obs = map[string]interface{}{"xnet": fmt.Sprintf("x/net: err=%q fields=%+v; bfe: err=%q fields=%+v", xe, xf, first.err, first.fields)}
 			}
 		}
-		vh.Emit(res)
+		emitRes(res)
 	})
 }
 
